@@ -627,6 +627,48 @@ def FaultCondVar_notify_one : String :=
 def FaultCondVar_notify_all : String :=
   "notify_all() { InjectFault(); notify_all(); InjectFault() }"
 
+def FaultMutex_GetImpl : String :=
+  "GetImpl() { return (*this) }"
+
+def FaultSharedTimedMutex_try_lock_until : String :=
+  "try_lock_until(timeout_time) { InjectFault(); var r = try_lock_until(timeout_time); InjectFault(); return r }"
+
+def FaultSharedTimedMutex_try_lock_shared_until : String :=
+  "try_lock_shared_until(timeout_time) { InjectFault(); var r = try_lock_shared_until(timeout_time); InjectFault(); return r }"
+
+def FaultCondVar_wait_pred : String :=
+  "wait(lock, stop_waiting) { var [..] = From(lock); InjectFault(); wait(impl_lock, forward(stop_waiting)); InjectFault(); (lock = From(mutex, impl_lock)) }"
+
+def FaultCondVar_wait_until : String :=
+  "wait_until(lock, timeout_time) { var [..] = From(lock); InjectFault(); var r = wait_until(impl_lock, timeout_time); InjectFault(); (lock = From(mutex, impl_lock)); return CVStatusFrom(r) } || wait_until(lock, timeout_time, stop_waiting) { var [..] = From(lock); InjectFault(); var r = wait_until(impl_lock, timeout_time, forward(stop_waiting)); InjectFault(); (lock = From(mutex, impl_lock)); return r }"
+
+def FaultCondVar_From_lock : String :=
+  "From(lock) { var mutex = lock.release(); return init(mutex, init(mutex.GetImpl(), init(adopt_lock))) }"
+
+def FaultCondVar_From_pair : String :=
+  "From(mutex, lock_impl) { operator=(ignore, lock_impl.release()); return init((*mutex), init(adopt_lock)) }"
+
+def FaultCondVar_CVStatusFrom_wait : String :=
+  "CVStatusFrom(status) { return ((status == Ready) ? no_timeout : timeout) }"
+
+def FaultCondVar_CVStatusFrom_cv : String :=
+  "CVStatusFrom(status) { return status }"
+
+def FaultCondVarAny_notify_one : String :=
+  "notify_one() { InjectFault(); notify_one(); InjectFault() }"
+
+def FaultCondVarAny_notify_all : String :=
+  "notify_all() { InjectFault(); notify_all(); InjectFault() }"
+
+def FaultCondVarAny_wait : String :=
+  "wait(lock) { InjectFault(); wait(lock); InjectFault() } || wait(lock, stop_waiting) { InjectFault(); wait(lock, forward(stop_waiting)); InjectFault() }"
+
+def FaultCondVarAny_wait_for : String :=
+  "wait_for(lock, rel_time) { InjectFault(); var r = wait_for(lock, rel_time); InjectFault(); return r } || wait_for(lock, rel_time, stop_waiting) { InjectFault(); var r = wait_for(lock, rel_time, forward(stop_waiting)); InjectFault(); return r }"
+
+def FaultCondVarAny_wait_until : String :=
+  "wait_until(lock, timeout_time) { InjectFault(); var r = wait_until(lock, timeout_time); InjectFault(); return r } || wait_until(lock, timeout_time, stop_waiting) { InjectFault(); var r = wait_until(lock, timeout_time, forward(stop_waiting)); InjectFault(); return r }"
+
 def Sched_RunLoop : String :=
   "RunLoop() { while (((!_queue.Empty()) || (!_sleep_list.empty()))) { if (_queue.Empty()) { AdvanceTime() }; WakeUpNeeded(); if (_queue.Empty()) { continue }; var next = GetNext(); (sCurrent = next); if ((gHooks.on_resume != nullptr)) { gHooks.on_resume(gHooks.ctx, next.GetId()) }; TickTime(); next.Resume(); if (((next.GetState() == Completed) && (!next.IsThreadAlive()))) { delete(next) } }; (sCurrent = nullptr) }"
 
